@@ -29,7 +29,7 @@ MANIFEST = {
 }
 LENGTHS = [1, 31, 32, 33, 40]
 LETTERS = "ABCDEFGHIJKL"
-TWO_ITALIC_WORDS = "BG"
+TWO_ITALIC_WORDS = "E"  # rows of the letter E (used by the family "two-italic-words" only)
 ROWSETS = [[1, 5, 10], [13, 14, 15], [2, 3, 9]]
 
 
@@ -313,6 +313,29 @@ def run_shard(d):
                                     acc.violation(sig + "/preamble-spelling:" + "+".join(sorted(set(st))), case, det)
         finally:
             PAC_STYLE = ("plain", "plain")
+        # rows made of two italic words (italics, plain, italics again), above / below / away from an ordinary row
+        for r1, r2 in ((14, 15), (5, 6), (1, 8), (8, 1), (15, 1)):
+            for lens in ((32, 5), (33, 5), (5, 33), (32, 32), (40, 1), (5, 32), (31, 33)):
+                for e_first in (True, False):
+                    for dd in (1, 2):
+                        texts = [mk("E" if e_first else "A", lens[0]), mk("A" if e_first else "E", lens[1])]
+                        for mode in ("pop", "paint"):
+                            if mode == "pop":
+                                if r2 != r1 + 1 and r1 > r2:
+                                    continue
+                                groups = [[(r1, texts[0]), (r2, texts[1])]]
+                                doc = popon_doc(groups, dd, False)
+                                case = {"k": "pop", "groups": groups, "d": dd, "same_second": False}
+                            else:
+                                doc = painton_doc([r1, r2], texts, dd)
+                                case = {"k": "paint", "rows": [r1, r2], "texts": texts, "d": dd}
+                            v, res = judge(doc, texts, {"pop": "pop-on", "paint": "paint-on"}[mode])
+                            acc.traces += 1
+                            acc.transitions += 2
+                            states.add(h8(("two-italic", r1, r2, lens, e_first, mode)))
+                            acc.case(("two-italic-words", r1, r2, lens, e_first, dd, mode), True, res, {"mode": mode, "rows": [r1, r2], "row_lengths": lens, "row_of_two_italic_words": 0 if e_first else 1, "doubled": dd == 2})
+                            for sig, det in v:
+                                acc.violation(sig, case, det)
         # a row that is too long in a stream that also holds a caption shown for one frame: still the line-length error
         for lens in ((33,), (40,), (33, 1), (1, 33), (40, 33)):
             for dd in (1, 2):
